@@ -418,12 +418,15 @@ def g_mul_f(rng):
 
 
 def g_concat_flip(rng):
-    s = rshape(rng, 1, 3, 48, 2)
+    # a and b of the same shape with an extent >= 2 on the flipped axis: the (wrong) linearised composition
+    # concatenate(flip(a),b) is then a valid view of the same shape with different labels, so the extraction check
+    # decides by values (with different shapes the wrongly composed view indexes out of bounds while it is printed)
+    s = rshape(rng, 1, 3, 40, 2)
     ax = raxis(rng, len(s), neg=False)
-    t = list(s)
-    t[ax] = rng.randint(1, 4)
-    ax2 = raxis(rng, len(s))
-    return [lab(s), lab(t, 1000), NONE], [ax, ax2]
+    ax2 = rng.choice([i for i in range(len(s)) if s[i] >= 2])
+    if rng.random() < 0.3:
+        ax2 -= len(s)
+    return [lab(s), lab(s, 1000), NONE], [ax, ax2]
 
 
 # ---------------------------------------------------------------- models (NumPy)
